@@ -26,6 +26,10 @@ import lib  # noqa: E402
 from lib import PropertyCheck, clist, copt, cz  # noqa: E402
 
 I32MAX = 2**31 - 1
+# Does the clause "the coverage sums to len(sampling)" cover samplings whose position angles broadcast the pointing
+# (theta, phi) further?  The pinned get_coverage ignores Sampling.pa (reported: fixes/C17-coverage-pa-broadcast.diff);
+# True once that fix is in the tree (the model then multiplies the counts like the fixed code).
+PA_CLAUSE = False
 STOKES = ['I', 'QU', 'IQU', 'IQUV']
 
 # ----------------------------------------------------------------------------------------------
@@ -142,29 +146,39 @@ def impl_case(case):
             return {'error': type(e).__name__}
 
 
+def field_shapes(case):
+    """Shapes of the Sampling fields theta, phi, pa of a coverage case (lists; [] is a 0-d array)."""
+    if 'tshape' in case:
+        return list(case['tshape']), list(case['pshape']), list(case.get('pashape', []))
+    shape = list(case.get('sshape') or [len(case['theta'])])
+    return shape, shape, list(case.get('pashape', []))
+
+
 def impl_coverage(case, landscape):
     import jax.numpy as jnp
     import numpy as np
 
     from furax.samplings import Sampling
 
-    shape = tuple(case.get('sshape') or [len(case['theta'])])
-    theta = jnp.asarray(np.array(case['theta'], dtype=np.float64).reshape(shape))
-    phi = jnp.asarray(np.array(case['phi'], dtype=np.float64).reshape(shape))
-    sampling = Sampling(theta, phi, jnp.array(0.0))
+    tshape, pshape, pashape = field_shapes(case)
+    theta = jnp.asarray(np.array(case['theta'], dtype=np.float64).reshape(tshape))
+    phi = jnp.asarray(np.array(case['phi'], dtype=np.float64).reshape(pshape))
+    sampling = Sampling(theta, phi, jnp.zeros(tuple(pashape)))
     try:
         indices = landscape.world2index(theta, phi)
         coverage = landscape.get_coverage(sampling)
+        n = len(sampling)
     except Exception as e:  # any failure of the code under test is an observation, not a harness crash
         return {'error': type(e).__name__}
     return {
         'indices': np.asarray(indices).ravel().tolist(),
+        'index_shape': list(indices.shape),
         'index_dtype': str(indices.dtype),
         'coverage': np.asarray(coverage).ravel().tolist(),
         'cov_shape': list(coverage.shape),
         'shape': list(landscape.shape),
         'len': len(landscape),
-        'n': len(sampling),
+        'n': n,
     }
 
 
@@ -555,6 +569,12 @@ def coq_coord(c) -> str:
     return f'Fin (({c[0]}) # {c[1]})'
 
 
+def coq_float(x) -> str:
+    """A finite float as the exact rational it is."""
+    f = Fraction(float(x))
+    return f'Fin (({f.numerator}) # {f.denominator})'
+
+
 def coq_landscape(case) -> str:
     n = len(case.get('stokes', 'I'))
     land = case.get('land', 'car')
@@ -615,7 +635,7 @@ class Check(PropertyCheck):
         super().__init__(tier, seed)
         self._obs = {}
         self.exhaustive = True
-        self.stats = {'points': 0, 'outside_guard_x64_off_large_map': 0, 'outside_guard_beyond_int64': 0, 'coverage_with_out_of_map_samples': 0, 'nan_points_skipped': 0}
+        self.stats = {'points': 0, 'outside_guard_x64_off_large_map': 0, 'outside_guard_beyond_int64': 0, 'coverage_with_out_of_map_samples': 0, 'coverage_pa_broadcasts_beyond_pointing': 0, 'nan_points_skipped': 0}
 
     # ---- cases -------------------------------------------------------------------------------
     def grid_shapes(self, tier=None):
@@ -755,9 +775,109 @@ class Check(PropertyCheck):
             n = 60
             cases.append({'kind': 'coverage', 'land': 'car', 'ps': ps, 'name': 'car-random-inside', 'theta': [nrng.integers(0, 4 * ps[0] - 2) / 4 - 0.25 for _ in range(n)], 'phi': [nrng.integers(0, 4 * ps[1] - 2) / 4 - 0.25 for _ in range(n)]})
             cases.append({'kind': 'coverage', 'land': 'car', 'ps': ps, 'name': 'car-with-outside', 'theta': [nrng.integers(-8, 4 * ps[0] + 8) / 4 for _ in range(n)], 'phi': [nrng.integers(-8, 4 * ps[1] + 8) / 4 for _ in range(n)]})
+        # (8) Sampling fields of different but broadcastable shapes (0-d, (n,), (1,), (d,1) x (1,n), 3-d, empty,
+        #     incompatible) x value regimes (spread / many hits in few pixels / one pixel) x fewer or more
+        #     samples than pixels x pa shapes (0-d, trailing axis, full; larger than the pointing)
+        cases += self.broadcast_coverage_cases(nrng)
         for c in cases:
             c.setdefault('x64', False)
         return cases
+
+    @staticmethod
+    def shape_pairs(d, n):
+        """(theta shape, phi shape): every way two Sampling fields can differ and still broadcast."""
+        pairs = [
+            ([], []), ([], [n]), ([n], []), ([1], [n]), ([n], [1]), ([n], [n]), ([1], [1]), ([], [1]),
+            ([d, 1], [1, n]), ([1, n], [d, 1]), ([d, 1], [n]), ([n], [d, 1]), ([d, n], [n]), ([n], [d, n]),
+            ([d, n], []), ([], [d, n]), ([d, n], [d, 1]), ([d, 1], [d, n]), ([d, n], [1, n]), ([1, n], [d, n]),
+            ([d, n], [d, n]), ([1, 1], [d, n]), ([d, n], [1, 1, 1]), ([2, 1, 1], [d, n]), ([d, 1, n], [2, 1]), ([2, 1, n], [d, 1]),
+            ([0], [0]), ([0], []), ([], [0]), ([d, 0], [1]), ([1, 0], [d, 1]),
+            ([2], [3]), ([d, n], [d + 1, 1]), ([n, d], [n]),
+        ]  # fmt: skip
+        return pairs
+
+    def broadcast_coverage_cases(self, nrng):
+        import healpy as hp
+        import numpy as np
+
+        quick = self.tier == 'quick'
+        out = []
+        sizes = [(2, 5), (3, 50)]  # fewer samples than pixels / more samples than pixels
+
+        def pa_shapes(tshape, pshape, k):
+            try:
+                b = list(np.broadcast_shapes(tuple(tshape), tuple(pshape)))
+            except ValueError:
+                return [], False
+            choice = k % 4
+            if choice == 1 and b:
+                return b, False
+            if choice == 2 and b:
+                return b[-1:], False
+            if choice == 3 and k % 8 == 3:
+                return [2] + (b if b else [3]), True  # pa broadcasts the pointing further
+            return [], False
+
+        def values(kind, regime, size, lo, hi):
+            """size coordinates: spread over [lo-1/4, hi+1/4) on the quarter-integer grid, from two values, or one."""
+            if kind == 'car':
+                if regime == 'spread':
+                    return (nrng.integers(4 * lo - 1, 4 * hi - 2, size) / 4.0).tolist()
+                if regime == 'few':
+                    return nrng.choice([lo + 0.25, hi - 1.0], size).tolist()
+                return [float((lo + hi) // 2)] * size
+            raise ValueError(kind)
+
+        k = 0
+        flat = [([4, 6], 'pixel_shape'), ([5, 3], 'shape'), ([3, 2], 'pixel_shape')]
+        for si, (d, n) in enumerate(sizes):
+            for pi, (tshape, pshape) in enumerate(self.shape_pairs(d, n)):
+                regimes = ['spread', 'few', 'one'] if not quick else [['spread', 'few', 'one'][(pi + si) % 3]]
+                maps = flat if not quick else [flat[(pi + si) % len(flat)]]
+                for ps, by in maps:
+                    for regime in regimes:
+                        k += 1
+                        pashape, larger = pa_shapes(tshape, pshape, k)
+                        c = {
+                            'kind': 'coverage', 'land': 'car', 'ps': ps, 'by': by, 'name': f'broadcast-{regime}', 'stokes': STOKES[k % 4],
+                            'tshape': tshape, 'pshape': pshape, 'pashape': pashape,
+                            'theta': values('car', regime, math.prod(tshape), 0, ps[0]),
+                            'phi': values('car', regime, math.prod(pshape), 0, ps[1]),
+                        }  # fmt: skip
+                        if larger:
+                            c['pa_larger'] = True
+                        out.append(c)
+        # HEALPix maps: directions are random (spread), the centres of two pixels (few) or of one pixel
+        for nside in (1, 2) if quick else (1, 2, 4):
+            npix = 12 * nside**2
+            for si, (d, n) in enumerate(sizes):
+                if quick and (si + nside) % 2:
+                    continue
+                for pi, (tshape, pshape) in enumerate(self.shape_pairs(d, n)):
+                    if quick and nside == 1 and pi % 3:
+                        continue
+                    for regime in ['spread', 'few', 'one'] if not quick else [['spread', 'few', 'one'][(pi + si) % 3]]:
+                        k += 1
+                        pashape, larger = pa_shapes(tshape, pshape, k)
+                        nt, nph = math.prod(tshape), math.prod(pshape)
+                        if regime == 'spread':
+                            th, ph = np.arccos(nrng.uniform(-1, 1, nt)), nrng.uniform(0, 6.28, nph)
+                        else:
+                            pix = nrng.integers(0, npix, 2 if regime == 'few' else 1)
+                            tc, pc = hp.pix2ang(nside, pix)
+                            th, ph = nrng.choice(tc, nt), nrng.choice(pc, nph)
+                        land = 'frequency' if k % 5 == 0 else 'healpix'
+                        c = {
+                            'kind': 'coverage', 'land': land, 'nside': nside, 'name': f'broadcast-{regime}', 'stokes': STOKES[k % 4],
+                            'tshape': tshape, 'pshape': pshape, 'pashape': pashape,
+                            'theta': [float(x) for x in th], 'phi': [float(x) for x in ph],
+                        }  # fmt: skip
+                        if land == 'frequency':
+                            c['nfreq'] = 2
+                        if larger:
+                            c['pa_larger'] = True
+                        out.append(c)
+        return out
 
     def search_cases(self):
         for ps in self.grid_shapes('thorough'):
@@ -817,6 +937,12 @@ class Check(PropertyCheck):
             pts = clist(case['pts'], lambda p: clist(p, coq_coord))
             return f'run_points_ctor {x64} {coq_landscape(case)} {pts}'
         if kind == 'coverage':
+            if case['land'] == 'car':
+                # the model broadcasts the fields itself, computes the indices and the histogram
+                tshape, pshape, pashape = field_shapes(case)
+                fld = lambda shape, data: f'(mkField {clist(shape, cz)} {clist(data, coq_float)})'  # noqa: E731
+                pa = 'true' if PA_CLAUSE else 'false'
+                return f'sampling_coverage {pa} {x64} {coq_landscape(case)} {fld(tshape, case["theta"])} {fld(pshape, case["phi"])} {clist(pashape, cz)}'
             obs = self._obs.get(lib.case_id(case))
             if not isinstance(obs, dict) or 'indices' not in obs:
                 return None
@@ -826,6 +952,12 @@ class Check(PropertyCheck):
     def decode(self, case, v):
         name, args = lib.coqparse.ctor(v)
         if case['kind'] == 'coverage':
+            if name == 'Coverage':
+                return {'index_shape': args[0], 'index_dtype': f'int{args[1]}', 'indices': args[2], 'coverage': args[3]}
+            if name == 'Incompatible':
+                return {'error': 'ValueError'}
+            if name == 'CovError':
+                return {'error': args[0]['c']}
             return {'coverage': v}
         if name == 'Ok':
             return {'dtype': f'int{args[0]}', 'idx': args[1]}
@@ -836,8 +968,13 @@ class Check(PropertyCheck):
         raise ValueError(f'unexpected model value {v!r}')
 
     def comparable(self, case, obs):
-        if isinstance(obs, dict) and case['kind'] == 'coverage' and 'coverage' in obs:
-            return {'coverage': obs['coverage']}
+        if isinstance(obs, dict) and case['kind'] == 'coverage':
+            if case['land'] == 'car':
+                if 'error' in obs:
+                    return {'error': 'ValueError' if obs['error'] == 'TypeError' else obs['error']}
+                return {k: obs[k] for k in ('index_shape', 'index_dtype', 'indices', 'coverage')}
+            if 'coverage' in obs:
+                return {'coverage': obs['coverage']}
         return obs
 
     # ---- oracle ------------------------------------------------------------------------------
@@ -896,26 +1033,79 @@ class Check(PropertyCheck):
         return None
 
     def oracle_coverage(self, case, obs):
+        """world2index over the broadcast Sampling fields against an independent reference (closed formula with
+        round-half-even on exact rationals for flat maps, healpy.ang2pix for HEALPix maps), and get_coverage against
+        the np.add.at histogram of those indices."""
         import numpy as np
 
+        tshape, pshape, pashape = field_shapes(case)
+        try:
+            bshape = list(np.broadcast_shapes(tuple(tshape), tuple(pshape)))
+        except ValueError:
+            if obs.get('error') not in ('ValueError', 'TypeError'):
+                return f'theta {tshape} and phi {pshape} cannot be broadcast but the outcome is {str(obs)[:200]}'
+            return None
         if 'error' in obs:
-            return f'get_coverage raised {obs["error"]}'
+            return f'world2index/get_coverage raised {obs["error"]} for theta {tshape}, phi {pshape}, pa {pashape}'
         N = obs['len']
+        T = np.broadcast_to(np.array(case['theta'], dtype=np.float64).reshape(tshape), bshape).ravel()
+        P = np.broadcast_to(np.array(case['phi'], dtype=np.float64).reshape(pshape), bshape).ravel()
+        where = f'theta {tshape} x phi {pshape}'
+        if obs.get('index_shape') != bshape:
+            return f'world2index returned shape {obs.get("index_shape")} for {where} (broadcast shape {bshape})'
         idx = np.array(obs['indices'], dtype=np.int64)
-        if case['land'] != 'car' and (len(idx) and (idx.min() < 0 or idx.max() >= 12 * case['nside'] ** 2)):
-            return f'world2index returned an index outside 0..npix-1: {idx.min()}..{idx.max()}'
-        if len(idx) and idx.min() < 0:
+        info = np.iinfo(obs['index_dtype']) if obs['index_dtype'].startswith(('int', 'uint')) else None
+        if info is None or info.max < N - 1 or info.min > -1:
+            return f'index dtype {obs["index_dtype"]} is not an integer type wide enough for N={N}'
+        # the reference indices
+        if case['land'] == 'car':
+            ps = case['ps']
+            exp = np.array([expected_index(ps, [round(Fraction(float(x))), round(Fraction(float(y)))]) for x, y in zip(T, P)], dtype=np.int64)
+            tolerated = np.zeros(len(exp), dtype=bool)
+        else:
+            import healpy as hp
+
+            nside = case['nside']
+            th, ph, single = effective_angles(T, P, 'float64', bool(case.get('x64')))
+            exp = hp.ang2pix(nside, th, ph).astype(np.int64) if len(T) else np.zeros(0, dtype=np.int64)
+            tolerated = np.array([g != e and explained_by_rounding(nside, float(t), float(p), int(g), single) for g, e, t, p in zip(idx, exp, th, ph)], dtype=bool)
+            self.stats['coverage_healpix_within_rounding'] = self.stats.get('coverage_healpix_within_rounding', 0) + int(tolerated.sum())
+        bad = np.nonzero((idx != exp) & ~tolerated)[0]
+        if len(bad):
+            i = int(bad[0])
+            return f'world2index differs from the reference on {len(bad)} of the {len(exp)} broadcast samples of {where}: sample {i} (theta={T[i]!r}, phi={P[i]!r}) -> {int(idx[i])}, expected {int(exp[i])}'
+        ref = np.where(tolerated, idx, exp)
+        if len(ref) and ref.min() < 0:
             # samples outside a flat map: no clause (boundary; the model says where they are counted)
             self.stats['coverage_with_out_of_map_samples'] += 1
             return None
         if obs['cov_shape'] != obs['shape']:
             return f'coverage has shape {obs["cov_shape"]}, the map has shape {obs["shape"]}'
-        exp = np.bincount(idx, minlength=N).tolist() if len(idx) else [0] * N
-        if obs['coverage'] != exp:
-            p = next(i for i, (a, b) in enumerate(zip(obs['coverage'] + [None] * N, exp)) if a != b) if len(obs['coverage']) == len(exp) else None
-            return f'coverage differs from the histogram of the {len(idx)} sample indices (first at pixel {p}): {obs["coverage"][:24]} vs {exp[:24]}'
-        if sum(obs['coverage']) != obs['n'] or obs['n'] != len(idx):
-            return f'coverage sums to {sum(obs["coverage"])} for {obs["n"]} samples'
+        pointing = int(np.prod(bshape, dtype=np.int64))
+        try:
+            nsamples = int(np.prod(np.broadcast_shapes(tuple(bshape), tuple(pashape)), dtype=np.int64))
+        except ValueError:
+            return None  # pa not broadcastable with the pointing: not a sampling
+        if obs['n'] != nsamples:
+            return f'len(sampling)={obs["n"]} for fields of shapes {tshape}, {pshape}, {pashape}'
+        mult = 1
+        if nsamples != pointing:
+            # pa broadcasts the pointing further: every direction stands for nsamples/pointing samples
+            self.stats['coverage_pa_broadcasts_beyond_pointing'] += 1
+            if PA_CLAUSE:
+                mult = nsamples // max(pointing, 1)
+        hist = np.zeros(N, dtype=np.int64)
+        np.add.at(hist, ref, mult)
+        if obs['coverage'] != hist.tolist():
+            cov = obs['coverage']
+            p = next((i for i, (a, b) in enumerate(zip(cov, hist.tolist())) if a != b), None) if len(cov) == N else None
+            return (
+                f'coverage differs from the histogram of the {len(ref)} broadcast samples of {where} (first at pixel {p}; '
+                f'sum {sum(cov)} for {nsamples} samples): {cov[:24]} vs {hist.tolist()[:24]}'
+            )
+        if PA_CLAUSE or nsamples == pointing:
+            if sum(obs['coverage']) != obs['n']:
+                return f'coverage sums to {sum(obs["coverage"])} for {obs["n"]} samples'
         return None
 
     def finding_key(self, case, obs):
